@@ -243,12 +243,18 @@ def run(ck):
     for i, c in enumerate(cases):
         if i % 3 == 1:
             c["id_offset"] = rng.choice([32766, 40000, 65534, 70000])
+        # every fourth run writes into a folder that still holds the output of an earlier, longer run: the files found afterwards are
+        # the files of THIS run (the numbering rule and "a file describes cells alive when it was written" are judged on the folder)
+        if i % 4 == 2:
+            c["stale_files"] = True
     from concurrent.futures import ThreadPoolExecutor
     def one(c):
         try:
             env = {"OMP_NUM_THREADS": "1"}
             if c.get("id_offset"):
                 env["VERIF_ID_OFFSET"] = str(c["id_offset"])
+            if c.get("stale_files"):
+                env["VERIF_STALE_FILES"] = "1"
             p = vlib.run([impl], input=c["line"] + "\n", timeout=RUN_TIMEOUT, env=env)
             return p.returncode, p.stdout, p.stderr[-800:]
         except Exception as e:
@@ -411,7 +417,7 @@ def run(ck):
         if key in seen:
             continue
         seen.add(key)
-        ck.report(dict(input=cases[ci]["line"], scenario=cases[ci]["scen"], dt=cases[ci]["dt"], S=cases[ci]["S"], T=cases[ci]["T"]), oracle=key, key="output:" + key, what="solver::run: " + f)
+        ck.report(dict(input=cases[ci]["line"], scenario=cases[ci]["scen"], dt=cases[ci]["dt"], S=cases[ci]["S"], T=cases[ci]["T"], stale_files=bool(cases[ci].get("stale_files")), id_offset=cases[ci].get("id_offset")), oracle=key, key="output:" + key, what="solver::run: " + f)
     if not ck.violations:
         if not ok:
             ck.report(dict(log=ck.proof_res["log"][-3000:]), unchecked="Properties_C19.vo", what="proof obligations of C19 no longer check")
@@ -428,7 +434,12 @@ def run(ck):
 def replay(ck, path):
     j = json.load(open(path))
     impl = vlib.build_driver("run", wrap_clock=True)
-    out = vlib.run([impl], input=j["case"]["input"] + "\n", timeout=900, env={"OMP_NUM_THREADS": "1"}).stdout
+    env = {"OMP_NUM_THREADS": "1"}
+    if j["case"].get("stale_files"):
+        env["VERIF_STALE_FILES"] = "1"
+    if j["case"].get("id_offset"):
+        env["VERIF_ID_OFFSET"] = str(j["case"]["id_offset"])
+    out = vlib.run([impl], input=j["case"]["input"] + "\n", timeout=900, env=env).stdout
     its, end, cellfiles, facefiles, rows = parse_out(out)
     print("END", end); print("cell files", [n for n, _ in cellfiles]); print("\n".join(rows[:8]))
     c = dict(T=j["case"]["T"], S=j["case"]["S"], dt=j["case"]["dt"])
